@@ -119,7 +119,7 @@ def fp_is_square (a : Nat) : Nat :=
   let t := fp_exp3div4 P a
   let t := fp_sqr P t
   let t := fp_mul P t a
-  fp_is_equal t (fp_set_one P)
+  fp_is_equal t (fp_set_one P) ||| fp_is_zero a
 
 def fp_sqrt (a : Nat) : Nat :=
   let t := fp_exp3div4 P a
